@@ -1,5 +1,5 @@
 (* C18 — the Dec! macro and runtime parsing agree on every literal. *)
-From FP Require Import Machine SrcConsts Pow10 Parser Out RunMore.
+From FP Require Import Machine SrcConsts Pow10 Parser Out StringSpec RunMore.
 From FP Require Import MachineFacts MacroFacts SwarFacts ParserFacts ParserMore.
 
 (* The two separately written exponent foldings (macro: 10i128.pow + checked_mul,
@@ -43,6 +43,16 @@ Check C18_macro_agrees_every_string :
   forall pf s, Forall byte_ok s -> len s < 2 ^ 62 ->
     same_result (dec_macro pf s) (from_str pf (strip_sign_blank s)).
 Print Assumptions C18_macro_agrees_every_string.
+
+(* the oracle predicate the driver applies to Dec!(..) outcomes holds of the model *)
+Theorem C18_macro_accepted :
+  forall pf s, Forall byte_ok s -> len s < 2 ^ 62 -> strip_sign_blank s = s -> known_str s = 0 ->
+    acc_str Smacro s (run_str pf Smacro s) = true.
+Proof. exact macro_acc. Qed.
+Check C18_macro_accepted :
+  forall pf s, Forall byte_ok s -> len s < 2 ^ 62 -> strip_sign_blank s = s -> known_str s = 0 ->
+    acc_str Smacro s (run_str pf Smacro s) = true.
+Print Assumptions C18_macro_accepted.
 
 Theorem C18_sign_blank_removed :
   forall sg rest, (sg = 45 \/ sg = 43) -> strip_sign_blank (sg :: 32 :: rest) = sg :: rest.
